@@ -6,7 +6,7 @@
 From Coq Require Import List ZArith Bool Arith.
 From VibeSQL Require Import Store.Table Store.UserIndex Store.Constraints Store.Dml.
 Import ListNotations.
-Open Scope Z_scope.
+Local Open Scope Z_scope.
 
 (** rows travel as [list Z] with a sentinel for NULL (never generated as a value) *)
 Definition NULLC : Z := -7777777.
